@@ -177,7 +177,10 @@ func (rw *Rewriter) InlineRefs() {
 		}
 		// a composite target stays a component at non-component positions: goag names
 		// inline composites after their position (outside the name mapping)
-		if len(cp.AllOf) > 0 || len(cp.OneOf) > 0 {
+		// (a oneOf is inlined under array items, where its carrier keeps one field per
+		// member in member order: compared by position; under a property its type would
+		// be named after the raw property name, a known C01 finding for kebab-case names)
+		if len(cp.AllOf) > 0 || len(cp.OneOf) > 0 && pos != "items" {
 			return
 		}
 		if !c.AllowSchema(cp, pos) {
